@@ -41,14 +41,17 @@ pub enum IdMode {
     Sparse,
     Dense,
     Borders,
+    /// small ids mixed with ids of the form 65536*j + c and 2^k +- c (collide under sloppy packing / truncation)
+    Packed,
 }
 
-pub const ALL_ID_MODES: [IdMode; 5] = [
+pub const ALL_ID_MODES: [IdMode; 6] = [
     IdMode::Ascending,
     IdMode::Descending,
     IdMode::Sparse,
     IdMode::Dense,
     IdMode::Borders,
+    IdMode::Packed,
 ];
 
 #[derive(Clone, Copy, Debug, PartialEq, Eq)]
@@ -258,6 +261,10 @@ pub fn gen_name(rng: &mut Rng, mode: NameMode) -> String {
             s.push_str(*rng.pick(&MULTI));
         }
     }
+    if mode == NameMode::Mixed && rng.chance(1, 25) {
+        s.push_str(*rng.pick(&["\t", "\n", "\"", "\\", "\u{0}", " "]));
+        s.push_str(*rng.pick(&SYL));
+    }
     if mode == NameMode::Mixed && rng.chance(1, 10) {
         // names containing ": " (the obo key/value separator)
         s.push_str(": ");
@@ -303,6 +310,34 @@ fn assign_ids(rng: &mut Rng, n: usize, mode: IdMode, defaults: bool, allow_zero:
             }
         }
         IdMode::Sparse => {
+            while pool.len() < need {
+                let v = rng.range(1, 9_999_999) as u32;
+                take(v, &mut pool, &mut used);
+            }
+        }
+        IdMode::Packed => {
+            let mut cand: Vec<u32> = Vec::new();
+            for c in 2..=9u32 {
+                cand.push(c);
+            }
+            for j in 1..=6u32 {
+                for c in 2..=6u32 {
+                    cand.push(65_536 * j + c);
+                }
+            }
+            for k in [8u32, 16, 20, 23] {
+                for c in 0..3u32 {
+                    cand.push((1 << k) + c);
+                    cand.push((1 << k) - 1 - c);
+                }
+            }
+            cand.retain(|c| *c < 10_000_000);
+            rng.shuffle(&mut cand);
+            for c in cand {
+                if pool.len() < need {
+                    take(c, &mut pool, &mut used);
+                }
+            }
             while pool.len() < need {
                 let v = rng.range(1, 9_999_999) as u32;
                 take(v, &mut pool, &mut used);
@@ -358,10 +393,12 @@ pub fn gen_records(rng: &mut Rng, f: &mut FactSet, cfg: &GenCfg) {
         let pool_hi = (cfg.max_recs as u32 + 4).max(4);
         let mut rec_ids: BTreeSet<u32> = BTreeSet::new();
         while rec_ids.len() < counts[k] {
-            let id = if rng.chance(1, 20) {
-                rng.range(1, u64::from(u32::MAX)) as u32
-            } else {
-                rng.range(1, u64::from(pool_hi)) as u32
+            let id = match rng.below(24) {
+                0 => rng.range(1, u64::from(u32::MAX)) as u32,
+                1 => 65_536 * (rng.range(1, 3) as u32) + rng.range(1, u64::from(pool_hi)) as u32,
+                2 => (1u32 << [16, 24, 31][rng.usize_below(3)]) + rng.range(0, 3) as u32,
+                3 => u32::MAX - rng.range(0, 3) as u32,
+                _ => rng.range(1, u64::from(pool_hi)) as u32,
             };
             rec_ids.insert(id);
         }
@@ -375,6 +412,9 @@ pub fn gen_records(rng: &mut Rng, f: &mut FactSet, cfg: &GenCfg) {
             let mut terms: Vec<u32> = Vec::new();
             let nt = if cfg.empty_recs && rng.chance(1, 6) {
                 0
+            } else if ids.len() > 31 && rng.chance(1, 10) {
+                // more direct terms than the inline capacity (30) of the record's term group
+                rng.urange(31, ids.len().min(45))
             } else {
                 rng.urange(1, 4)
             };
@@ -434,11 +474,16 @@ pub fn gen_facts(rng: &mut Rng, cfg: &GenCfg) -> FactSet {
         let total = n + n_single;
         let ids = assign_ids(rng, total, id_mode, cfg.defaults, cfg.allow_zero_id);
         let mut f = FactSet::default();
-        f.version = (
-            rng.range(1990, 2030) as u16,
-            rng.range(1, 12) as u8,
-            rng.range(1, 28) as u8,
-        );
+        f.version = if rng.chance(1, 5) {
+            // the binary header carries any u16 / u8 / u8
+            (
+                *rng.pick(&[0u16, 1, 999, 9999, 10_000, 65_535]),
+                *rng.pick(&[0u8, 1, 12, 13, 99, 255]),
+                *rng.pick(&[0u8, 1, 31, 32, 99, 255]),
+            )
+        } else {
+            (rng.range(1990, 2030) as u16, rng.range(1, 12) as u8, rng.range(1, 31) as u8)
+        };
         let mut used_names: BTreeSet<String> = BTreeSet::new();
         for (i, id) in ids.iter().enumerate() {
             let mut name = if cfg.defaults && *id == 1 {
